@@ -490,7 +490,7 @@ def onlyNe (cs : List Atom) : Bool := cs.all (fun c => c.op == .ne)
 def multiUnionA (x : Bool) (cs : List Atom) (o : Atom) : PyM GC :=
   if x then
     if cs.contains o then .ok (.atom o)
-    else if cs.length == 2 && (cs.map (fun c => c.value)).contains o.value then
+    else if (cs.map (fun c => c.value)).eraseDups.length == 2 && (cs.map (fun c => c.value)).contains o.value then
       .ok (.union ((cs.filter (fun c => c.value != o.value)).map GS.atom ++ [.atom o]))
     else .ok (.union [.multi x cs, .atom o])
   else
